@@ -1,6 +1,7 @@
 import CJ.Drv.Loop
 import CJ.Drv.Covert
 import CJ.Drv.NetAddr
+import CJ.Drv.NetAddrBytes
 /-! Driver for C06: the covert-admission model. -/
 open CJ.Drv
 
@@ -11,4 +12,6 @@ def main : IO Unit := runDriver fun
   | "cdialback" :: args => Covert.handleDialback args
   | "netaddr" :: args => NetAddr.handle args
   | "cadmit" :: args => NetAddr.handleAdmit args
+  | "netaddrb" :: args => NetAddrBytes.handle args
+  | "cadmitb" :: args => NetAddrBytes.handleAdmit args
   | _ => none
